@@ -30,7 +30,8 @@ PROPS = {
                 real=[("conc", 60, 2000)]),
     "C19": dict(fams=[("hist", 3000, 300000)]),
     "C20": dict(fams=[("faultgrid", 0, 0), ("s1", 500, 30000), ("sm", 500, 30000), ("cs", 300, 10000),
-                      ("he", 200, 5000)]),
+                      ("he", 200, 5000)],
+                real=[("entropy", 80, 3000)]),
 }
 
 TRUSTED_BASE = [
